@@ -192,7 +192,7 @@ def _replay(chunk, arg):
     viol, n, nontriv = [], 0, set()
     for raw in chunk:
         case = tlc.decode(raw)
-        viol.extend(check_case(C, case))
+        viol.extend(core.safe(check_case, case, C, case))
         n += 1
         c = case["c"]
         if c["kind"] == "ops" and len(c["t"]) >= 2 or c["kind"] in ("range2", "range3"):
